@@ -157,6 +157,35 @@ func main() {
 		}
 	}
 
+	// thorough tier: re-discharge the quick-tier harnesses on a second solver and compare verdicts per assertion id
+	var cross []map[string]interface{}
+	crossDisagree := 0
+	if *tier == "thorough" && os.Getenv("VERIF_NO_CROSS") == "" {
+		second := "cvc5"
+		if solverName == "cvc5" {
+			second = "z3-new"
+		}
+		for i, c := range checks {
+			if c.Tier == "thorough" || c.Solver != "" {
+				continue
+			}
+			hr2, err := run.Explore(l, c, run.Options{Workers: nw, SolverName: second, QueryTimeout: qt, MaxPaths: *maxPaths})
+			if err != nil {
+				fmt.Fprintln(os.Stderr, "ERROR:", err)
+				os.Exit(2)
+			}
+			a, b := verdicts(results[i]), verdicts(hr2)
+			same := a == b
+			if !same {
+				crossDisagree++
+				fmt.Printf("CROSS-SOLVER-DISAGREEMENT %s\n    %s: %s\n    %s: %s\n", c.Name, solverName, a, second, b)
+			}
+			cross = append(cross, map[string]interface{}{"harness": c.Name, "first": solverName, "second": second, "agree": same,
+				"second_queries": hr2.Queries, "second_solver_s": round(hr2.SolverTime.Seconds())})
+		}
+		fmt.Printf("cross-solver: %d harnesses re-discharged on %s, %d disagreements\n", len(cross), second, crossDisagree)
+	}
+	crossSolver = cross
 	// triage violations: replay each distinct (harness, assertion) once, compare with known findings
 	exit := 0
 	nviol := 0
@@ -226,7 +255,7 @@ func main() {
 			inconcl++
 		}
 	}
-	inconcl += vmismatch
+	inconcl += vmismatch + crossDisagree
 	if inconcl > 0 && exit == 0 {
 		exit = 2
 	}
@@ -282,6 +311,35 @@ func loadFindings() map[string]*Finding {
 }
 
 var validation []run.ValidationResult
+var crossSolver []map[string]interface{}
+
+// verdicts: a canonical summary of what a run decided: per assertion id the number of discharged instances, the set of
+// violated ids, and the inconclusive kinds.
+func verdicts(hr *run.HarnessResult) string {
+	var parts []string
+	for _, id := range keysInt(hr.Asserts) {
+		parts = append(parts, fmt.Sprintf("%s=%d", id, hr.Asserts[id]))
+	}
+	v := map[string]bool{}
+	for _, x := range hr.Violations {
+		v[x.ID] = true
+	}
+	parts = append(parts, "violated:"+strings.Join(keys(v), ","))
+	for _, k := range keysInt(hr.Inconclusive) {
+		parts = append(parts, "inconclusive:"+k)
+	}
+	parts = append(parts, fmt.Sprintf("paths=%d", hr.Paths))
+	return strings.Join(parts, " ")
+}
+
+func keysInt(m map[string]int) []string {
+	var out []string
+	for k := range m {
+		out = append(out, k)
+	}
+	sort.Strings(out)
+	return out
+}
 
 func writeEvidence(prop, tier string, seed int, l *run.Loaded, results []*run.HarnessResult, samples []interface{}, known []string, nviol, inconcl int, wall, loadT time.Duration) {
 	obligations, discharged, paths, steps := 0, 0, 0, 0
@@ -375,6 +433,7 @@ func writeEvidence(prop, tier string, seed int, l *run.Loaded, results []*run.Ha
 			"known_findings_hit": known,
 			"traces_validated_against_impl": countSame(validation),
 			"translator_validation": validation,
+			"cross_solver": crossSolver,
 			"inconclusive":     inconcl,
 			"exhaustive":       false,
 			"checker_cmd":      "bin/vcheck --tier " + tier + " " + prop,
